@@ -22,16 +22,12 @@ def stepGuard (pend : Bool) (s : Stream) (o : Op) : Bool :=
   opProved s o
 
 /-- the guard of one world operation: its default slot holds a handle of the file; the handle operation it
-    performs is within `stepGuard`; and it is none of the recorded deviations — `io.output(name)` on a non-empty
-    file (C19-io-output-no-truncate), a closed handle given to `io.input/io.output`, `io.lines()` over a closed or
-    stale default input (C19-default-file-closed-no-raise); `io.lines()` over a handle that cannot be read is
-    left out as well (what it returns is not fixed, cf. `lines`). -/
+    performs is within `stepGuard`; `io.lines()` over an open handle that cannot be read is left out (what it
+    returns is not fixed by the property, cf. `lines`).  No deviation of the code is excluded any more. -/
 def wopProved (pend : Bool) (w : WStream) (op : WOp) : Bool :=
   FileSpec.slotOk w op &&
   (match op with
-   | .ioOutputName => w.s.bytes.isEmpty
-   | .ioInput | .ioOutput => !w.s.closed
-   | .ioLines => decide (w.defIn = .cur) && !w.s.closed && w.s.canRead
+   | .ioLines => !(decide (w.defIn = .cur) && !w.s.closed && !w.s.canRead)
    | _ => true) &&
   (match FileSpec.effOp w op with
    | none => true
@@ -78,8 +74,8 @@ theorem absW_newHandle (w : World) (f' : LFile) (a b : Bool) :
     absW (w.newHandle f' a b) = (absW w).newHandle (absOf f') a b := by
   simp [absW, World.newHandle, WStream.newHandle]
 
-/-- `ioOutput(name)` on an EMPTY file is `fopen(name, "w")` (on a non-empty one it is not: no O_TRUNC). -/
-theorem absOf_ioOutputFile_nil : absOf (ioOutputFile []) = FileSpec.openStream [] .w := by
+/-- `ioOutput(name)` is `fopen(name, "w")` (fixes/C19-8: O_TRUNC). -/
+theorem absOf_ioOutputFile (d : Bytes) : absOf (ioOutputFile d) = FileSpec.openStream d .w := by
   simp [absOf, ioOutputFile, FileSpec.openStream, cursor, FileSpec.Mode.trunc, FileSpec.Mode.canRead,
     FileSpec.Mode.canWrite, FileSpec.Mode.app]
 
@@ -121,13 +117,6 @@ theorem ioLinesIter_sim {R : Nat} (hR : 0 < R) {pend : Bool} {f : LFile} (h : Si
       refine ⟨hres, ?_, hsim⟩
       rw [if_neg (hne hres (by simp))]; exact habs.symm
     | raise =>
-      have hfl : fileLinesIter R f = (f2, .raise) := by simp [fileLinesIter, hc', flushWriter_unbuf h.unbuf, hq]
-      have hio : ioLinesIter R f auto = (f2, .raise) := by simp [ioLinesIter, hc', flushWriter_unbuf h.unbuf, hq]
-      rw [hfl] at hres habs hsim
-      rw [hio]
-      refine ⟨hres, ?_, hsim⟩
-      rw [if_neg (hne hres (by simp))]; exact habs.symm
-    | goPanic =>
       have hfl : fileLinesIter R f = (f2, .raise) := by simp [fileLinesIter, hc', flushWriter_unbuf h.unbuf, hq]
       have hio : ioLinesIter R f auto = (f2, .raise) := by simp [ioLinesIter, hc', flushWriter_unbuf h.unbuf, hq]
       rw [hfl] at hres habs hsim
@@ -208,13 +197,21 @@ theorem wstep_sim {R : Nat} (hR : 0 < R) {pend : Bool} {w : World} (h : Sim pend
       | reopen m => exact absurd rfl (hnr m)
       | _ => simpa [wstep, FileSpec.wstep, wpendNext, FileSpec.effOp] using this
   | ioInput =>
-    have hc : w.f.closed = false := by simpa [absW, absOf] using hkf
-    refine ⟨by simp [wstep, FileSpec.wstep, absW, absOf, hc], by simp [wstep, FileSpec.wstep, absW, absOf, hc], ?_⟩
-    simpa [wstep, wpendNext, FileSpec.effOp] using h
+    cases hc : w.f.closed with
+    | true =>
+      refine ⟨by simp [wstep, FileSpec.wstep, absW, absOf, hc], by simp [wstep, FileSpec.wstep, absW, absOf, hc], ?_⟩
+      simpa [wstep, wpendNext, FileSpec.effOp, hc] using h
+    | false =>
+      refine ⟨by simp [wstep, FileSpec.wstep, absW, absOf, hc], by simp [wstep, FileSpec.wstep, absW, absOf, hc], ?_⟩
+      simpa [wstep, wpendNext, FileSpec.effOp, hc] using h
   | ioOutput =>
-    have hc : w.f.closed = false := by simpa [absW, absOf] using hkf
-    refine ⟨by simp [wstep, FileSpec.wstep, absW, absOf, hc], by simp [wstep, FileSpec.wstep, absW, absOf, hc], ?_⟩
-    simpa [wstep, wpendNext, FileSpec.effOp] using h
+    cases hc : w.f.closed with
+    | true =>
+      refine ⟨by simp [wstep, FileSpec.wstep, absW, absOf, hc], by simp [wstep, FileSpec.wstep, absW, absOf, hc], ?_⟩
+      simpa [wstep, wpendNext, FileSpec.effOp, hc] using h
+    | false =>
+      refine ⟨by simp [wstep, FileSpec.wstep, absW, absOf, hc], by simp [wstep, FileSpec.wstep, absW, absOf, hc], ?_⟩
+      simpa [wstep, wpendNext, FileSpec.effOp, hc] using h
   | ioInputName =>
     refine ⟨rfl, ?_, ?_⟩
     · simp only [wstep, FileSpec.wstep]
@@ -228,11 +225,9 @@ theorem wstep_sim {R : Nat} (hR : 0 < R) {pend : Bool} {w : World} (h : Sim pend
     · simpa [wstep, wpendNext, FileSpec.effOp, pendNext, FileSpec.isInput, FileSpec.isSeparator, World.newHandle]
         using sim_open w.f.disk .r
   | ioOutputName =>
-    have he : w.f.disk = [] := by simpa [absW, absOf] using hkf
     refine ⟨rfl, ?_, ?_⟩
     · simp only [wstep, FileSpec.wstep]
-      rw [absW_newHandle, he, absOf_ioOutputFile_nil]
-      simp [absW, absOf, he]
+      rw [absW_newHandle, absOf_ioOutputFile]; rfl
     · simpa [wstep, wpendNext, FileSpec.effOp, pendNext, FileSpec.isInput, FileSpec.isSeparator, World.newHandle]
         using sim_ioOutputFile w.f.disk
   | ioRead fs =>
@@ -284,15 +279,27 @@ theorem wstep_sim {R : Nat} (hR : 0 < R) {pend : Bool} {w : World} (h : Sim pend
       have := onSlot_cur_sim hR h .close heff' (by intro m e; cases e)
       simpa [wstep, FileSpec.wstep, wpendNext, FileSpec.effOp, absW, hd] using this
   | ioLines =>
-    simp only [Bool.and_eq_true, decide_eq_true_eq] at hkf
-    obtain ⟨⟨hd, hc⟩, hr⟩ := hkf
-    have hd' : w.defIn = .cur := by simpa [absW] using hd
-    have hc' : w.f.closed = false := by simpa [absW, absOf] using hc
-    have hr' : w.f.hasReader = true := by simpa [absW, absOf] using hr
-    refine ⟨?_, ?_, ?_⟩
-    · simp [wstep, FileSpec.wstep, absW, hd', WStream.onSlot, FileSpec.step, absOf, hc', hr']
-    · simp [wstep, FileSpec.wstep, absW, hd', WStream.onSlot, FileSpec.step, absOf, hc', hr']
-    · simpa [wstep, wpendNext, FileSpec.effOp, absW, hd', pendNext, FileSpec.isInput, FileSpec.isSeparator] using h
+    have hs : w.defIn ≠ .std := by simp [FileSpec.slotOk, absW] at hslot; exact of_decide_eq_true hslot
+    cases hd : w.defIn with
+    | std => exact absurd hd hs
+    | stale =>
+      refine ⟨by simp [wstep, FileSpec.wstep, absW, hd, WStream.onSlot], by simp [wstep, FileSpec.wstep, absW, hd, WStream.onSlot], ?_⟩
+      simpa [wstep, wpendNext, FileSpec.effOp, absW, hd] using h
+    | cur =>
+      have hsim : Sim (wpendNext pend (absW w) .ioLines) (wstep R w .ioLines).1.f := by
+        cases hc : w.f.closed <;>
+          simpa [wstep, wpendNext, FileSpec.effOp, absW, hd, hc, pendNext, FileSpec.isInput, FileSpec.isSeparator] using h
+      cases hc : w.f.closed with
+      | true =>
+        exact ⟨by simp [wstep, FileSpec.wstep, absW, hd, WStream.onSlot, FileSpec.step, absOf, hc],
+               by simp [wstep, FileSpec.wstep, absW, hd, WStream.onSlot, FileSpec.step, absOf, hc], hsim⟩
+      | false =>
+        have hr : w.f.hasReader = true := by
+          cases hq : w.f.hasReader with
+          | true => rfl
+          | false => simp [absW, absOf, hd, hc, hq] at hkf
+        exact ⟨by simp [wstep, FileSpec.wstep, absW, hd, WStream.onSlot, FileSpec.step, absOf, hc, hr],
+               by simp [wstep, FileSpec.wstep, absW, hd, WStream.onSlot, FileSpec.step, absOf, hc, hr], hsim⟩
   | ioIter auto =>
     have heff' : stepGuard pend (absOf w.f) .iter = true := by simpa [FileSpec.effOp, absW] using heff
     have hcr := (stepGuard_elim heff').2.2.2.1 rfl
